@@ -421,6 +421,14 @@ where
                     format!("local {sid} cannot receive STREAM_FRAME"),
                 ));
             }
+            // RFC 9000 §19.8: a locally initiated stream that has not been created yet
+            if sid.id() >= self.stream_ids.local.opened_streams(Dir::Bi) {
+                return Err(QuicError::new(
+                    ErrorKind::StreamState,
+                    stream_frame.frame_type().into(),
+                    format!("local {sid} has not been opened"),
+                ));
+            }
         }
 
         if let Ok(set) = self.input.streams().as_mut()
@@ -491,6 +499,13 @@ where
                     }
                     self.try_accept_sid(sid)
                         .map_err(wrapper_error(stop_sending.frame_type()))?;
+                } else if sid.id() >= self.stream_ids.local.opened_streams(sid.dir()) {
+                    // RFC 9000 §19.5: a locally initiated stream that has not been created yet
+                    return Err(QuicError::new(
+                        ErrorKind::StreamState,
+                        stop_sending.frame_type().into(),
+                        format!("local {sid} has not been opened"),
+                    ));
                 }
 
                 if let Some(final_size) = self
@@ -520,6 +535,13 @@ where
                     }
                     self.try_accept_sid(sid)
                         .map_err(wrapper_error(max_stream_data.frame_type()))?;
+                } else if sid.id() >= self.stream_ids.local.opened_streams(sid.dir()) {
+                    // RFC 9000 §19.10: a locally initiated stream that has not been created yet
+                    return Err(QuicError::new(
+                        ErrorKind::StreamState,
+                        max_stream_data.frame_type().into(),
+                        format!("local {sid} has not been opened"),
+                    ));
                 }
                 if let Some((outgoing, _s)) = self
                     .output
